@@ -39,6 +39,8 @@ CliChecks(e) ==
            THEN Flag(OutMatches(x.out, e.out), "C13_output_is_not_the_authenticated_prefix")
            ELSE Flag(OutMatches(x.out, e.out), "C13_output_created_or_clobbered_by_failed_command"))
      \cup Flag(e.exit = 0 => e.named = x.named, "C12_sender_not_named_correctly")
+     \* C05 at the tool: whoever is reported is the holder of the authenticated key, never another keyring entry
+     \cup Flag(e.exit = 0 => e.named \notin {"wrong_name", "wrong_unknown"}, "C05_tool_reports_a_sender_other_than_the_authenticated_key")
 
 \* C09: whatever the arguments, exit 0 or 1, "Error:" exactly when 1, no hang
 ArgvChecks(e) ==
@@ -85,8 +87,16 @@ RssChecks(e) ==
   \cup Flag(e.rss_kb <= e.base_rss_kb + 16384, "C11_process_memory_grows_with_input_size")
   \cup Flag(e.roundtrip_ok, "C01_round_trip_differs")
 
+\* C01 / C02 through the tool: encrypt then decrypt, via files or pipes, onto fresh or pre-existing output paths
+RtChecks(e) ==
+  Flag(e.enc_exit = 0 /\ e.dec_exit = 0, e.prop \o "_cli_round_trip_failed")
+  \cup Flag(e.spec_ok, e.prop \o "_cli_produced_file_differs_from_specification")
+  \cup Flag(e.same, e.prop \o "_cli_round_trip_differs")
+  \cup Flag(e.named, e.prop \o "_cli_sender_not_named")
+
 Checks(e) ==
   CASE e.ev = "cli"  -> CliChecks(e)
+    [] e.ev = "rt"   -> RtChecks(e)
     [] e.ev = "rss"  -> RssChecks(e)
     [] e.ev = "tty"  -> TtyChecks(e)
     [] e.ev = "argv" -> ArgvChecks(e)
